@@ -104,7 +104,8 @@ def impl_django_revocation(c):
 
 def jwt9068_cases():
     """RFC 9068 JWT access tokens: what the JWT introspection endpoint reports and what the JWT resource validator does, around the expiry instant"""
-    return [{"op": "jwt9068", "off": off, "who": who} for off in (-100000, -1, 0, 1, 30, 59, 61, 100000) for who in ("owner", "other")]
+    return [{"op": "jwt9068", "off": off, "who": who} for off in (-100000, -1, 0, 1, 30, 59, 61, 100000) for who in ("owner", "other")] + \
+           [{"op": "jwt9068", "off": -1000, "who": "owner", "revoke_first": hint} for hint in ("none", "access_token")]      # (with the hint refresh_token the JWT endpoint steps aside and the ordinary one answers 200 for a string it does not know: RFC 7009 §2.2)
 
 
 def impl_jwt9068(c):
@@ -137,12 +138,28 @@ def impl_jwt9068(c):
     srv.register_token_generator("default", G(issuer="https://as.example", alg="HS256"))
     srv._endpoints["introspection"] = []
     srv.register_endpoint(I(issuer="https://as.example"))
+    if c.get("revoke_first"):
+        # the JWT revocation endpoint in front of the ordinary one, as the RFC 9068 module documents
+        from authlib.oauth2.rfc9068 import JWTRevocationEndpoint
+
+        class JR(JWTRevocationEndpoint):
+            CLIENT_AUTH_METHODS = ["client_secret_basic"]
+            def get_jwks(self):
+                return KeySet([key])
+        srv._endpoints["revocation"].insert(0, JR(issuer="https://as.example", server=srv))
     store.clients["c1"] = Client("c1", "s1", ["https://c1/cb"], "a b", ms.ALL_GRANT_TYPES, ms.ALL_RESPONSE_TYPES)
     store.clients["c2"] = Client("c2", "s2", ["https://c2/cb"], "a b", ms.ALL_GRANT_TYPES, ms.ALL_RESPONSE_TYPES)
     r = srv.create_token_response(Req("POST", ms.TOKEN_URL, {"grant_type": "client_credentials", "scope": "a"}, ms.basic("c1", "s1")))
     if r.status != 200:
         return {"issue_failed": r.body}
     at, exp_in = r.body["access_token"], r.body["expires_in"]
+    revoke = None
+    if c.get("revoke_first"):
+        f = {"token": at}
+        if c["revoke_first"] != "none":
+            f["token_type_hint"] = c["revoke_first"]
+        rr = srv.create_endpoint_response("revocation", Req("POST", "https://as.example/revoke", f, ms.basic("c1", "s1")))
+        revoke = {"status": rr.status, "error": rr.body.get("error") if isinstance(rr.body, dict) else None}
     CLOCK.now += exp_in + c["off"]           # the instant, relative to the token's expiry
     who = ms.basic("c1", "s1") if c["who"] == "owner" else ms.basic("c2", "s2")
     try:
@@ -161,7 +178,7 @@ def impl_jwt9068(c):
         served = e.error
     except Exception as e:
         served = "raised:" + type(e).__name__
-    return {"expires_in": exp_in, "introspection": intro, "served": served}
+    return {"expires_in": exp_in, "introspection": intro, "served": served, "revoke": revoke}
 
 
 def impl(c):
@@ -284,6 +301,10 @@ def oracle(c, out):
         return [(f"JWT access token could not be issued: {out['issue_failed']}", {"kind": "jwt9068-issue"})]
     live = c["off"] <= 0
     intro = out["introspection"]
+    if out.get("revoke") and out["revoke"]["status"] == 200 and (intro.get("active") or out["served"] is True):
+        return [(f"the owner's revocation request for its JWT access token (hint {c['revoke_first']}) was answered 200, yet the token is still "
+                 f"{'active at introspection' if intro.get('active') else ''}{' and ' if intro.get('active') and out['served'] is True else ''}{'served by the resource validator' if out['served'] is True else ''}",
+                 {"kind": "revoke-not-effective", "token": "jwt9068"})]
     if "raised" in intro:
         return [(f"JWT introspection raised {intro['raised']}", {"kind": "crash", "op": "jwt9068", "exc": intro["raised"]})]
     want_active = live and c["who"] == "owner"
